@@ -125,7 +125,7 @@ def ref_grad(p, batch, u=1.0, prox=None):
   return g
 
 
-def ref_client_delta(p_server, batches, key, client_opt, loss_mode='rng', prox_mu=None, splits=2):
+def ref_client_delta(p_server, batches, key, client_opt, loss_mode='rng', prox_mu=None, splits=2, l2=None):
   """Sequential optimizer steps over the client's batch stream with its own key; returns (delta, steps)."""
   import jax
   p = {k: v.copy() for k, v in p_server.items()}
@@ -136,6 +136,8 @@ def ref_client_delta(p_server, batches, key, client_opt, loss_mode='rng', prox_m
     key, use = ks[0], ks[1]
     u = float(jax.random.uniform(use, ())) + 0.5 if loss_mode == 'rng' else 1.0
     g = ref_grad(p, b, u, (prox_mu, p_server) if prox_mu else None)
+    if l2:
+      g = {k: g[k] + l2 * p[k] for k in g}   # regularizer l2/2 * |p|^2
     st, p = client_opt.apply(g, st, p)
     steps += 1
   return {k: p_server[k] - p[k] for k in p}, steps
@@ -147,8 +149,15 @@ def ref_fedavg_round(p_server, server_opt_state, cohort, hparams, client_opt, se
   nsum = 0.0
   norms = {}
   for cid, ds, key in cohort:
-    delta, _ = ref_client_delta(p_server, list(ds.shuffle_repeat_batch(hparams)), key, client_opt, loss_mode)
+    batches = list(ds.shuffle_repeat_batch(hparams))
     n = len(ds)
+    if n > 0:
+      # the number of local steps is the documented function of the hyper-parameters (independent of the library's view)
+      from mc.ref import batching as _rb
+      want = _rb.shuffle_num_steps(n, hparams.batch_size, hparams.num_epochs, hparams.num_steps, hparams.drop_remainder)
+      core.require(len(batches) == want, 'client %r takes %d local steps, the documented batch stream has %d' % (cid, len(batches), want),
+                   want, len(batches))
+    delta, _ = ref_client_delta(p_server, batches, key, client_opt, loss_mode)
     for k in tot:
       tot[k] = tot[k] + n * delta[k]
     nsum += n
